@@ -18,6 +18,7 @@ import TzVerif.Model.Find
 import TzVerif.Spec.Zone
 import TzVerif.Proofs.Search
 import TzVerif.Proofs.SearchRule
+import TzVerif.Proofs.SpecSearch
 
 namespace TzVerif.C05
 open TzVerif.Model TzVerif.Proofs
@@ -108,5 +109,22 @@ theorem model_artifact_negative_hour :
   refine ⟨{ year := 2021, month := 1, monthDay := 1, hour := -14400, minute := 0, second := 0,
             localTimeType := { utOffset := -18000, isDst := false, name := some [69, 83, 84] }, unixTime := 1557637200, nanoseconds := 0 }, ?_⟩
   decide +kernel
+
+/-- The whole of C05 as ONE set equality against the executable specification the differential oracle uses:
+    for every zone the constructor accepts whose rule (if any) meets C04's hypotheses, and searched fields of
+    the Rust argument types with the year at least three inside the year guard, the valid results are exactly
+    `Spec.validSet` — the instants c − offset(τ), τ a type of the zone, at which the *declarative* forward
+    function `Spec.zoneExpect` (periods of C04, table of C03, leap scale of C12) answers τ. -/
+theorem valid_results_are_the_spec_set (y mo d h mi s ns : Int) (z : TimeZone) (rs : List Found)
+    (hz : ZoneGood z) (hfd : FieldsGood y mo d h mi s)
+    (hf : findDateTime y mo d h mi s ns z = .ok rs) (u : Int) (t : LocalTimeType) :
+    (u, t) ∈ Spec.validSet z (Spec.seconds y mo d h mi s) ↔
+      ∃ x, Found.normal x ∈ rs ∧ x.unixTime = u ∧ x.localTimeType = t :=
+  search_is_validSet y mo d h mi s ns z rs hz hfd hf u t
+
+/-- membership in the spec set, spelled out -/
+theorem spec_set_meaning (z : TimeZone) (c u : Int) (t : LocalTimeType) :
+    (u, t) ∈ Spec.validSet z c ↔ (t ∈ Spec.zoneTypes z ∧ u = c - t.utOffset ∧ Spec.zoneExpect z u = .type t) :=
+  validSet_mem_iff z c u t
 
 end TzVerif.C05
